@@ -141,7 +141,7 @@ def doParse (ws : List String) : String :=
               (match o.short with | some c => encQuery opts r k "s" [c] | none => "") ++
               (match o.sd with | some s => encQuery opts r k "d" s | none => "") ++
               (match o.long with | some s => encQuery opts r k "l" s | none => ""))
-            (if r.doubleFree then "double-free " else "") ++
+            (if r.doubleFree then "double-free " else "") ++   -- never (C39.parse_no_double_free)
             s!"rc={r.rc} argv={r.argv.length}:{encVec (some r.argv)} tail={r.tail.length}:{encVec (ofList r.tail)} q=" ++
               String.join qs
     | _, _ => "bad-op"
